@@ -156,6 +156,30 @@ Theorem C16_limit_respected_from_instantiate :
   successes hexdec keccak recover address_of verify a w cs <= a_limit (w_air w).
 Proof. exact limit_respected_fresh. Qed.
 
+(* Per Ethereum address (the 20 bytes), not per spelling.  The eligibility list and the
+   counters are keyed by the address STRING as given, while the signature check decodes
+   the hex digits whatever their letter case.  So the per-address reading of the limit
+   holds when no two list entries denote the same address ... *)
+Theorem C16_limit_per_ethereum_address :
+  forall hexdec keccak recover address_of verify cs w d,
+  (forall x y d', In x (a_list (w_air w)) -> In y (a_list (w_air w)) ->
+                  denotes hexdec x d' = true -> denotes hexdec y d' = true -> x = y) ->
+  (forall a, bmap_get a (a_counts (w_air w)) <= a_limit (w_air w)) ->
+  addr_successes hexdec keccak recover address_of verify d w cs <= a_limit (w_air w).
+Proof. exact limit_per_ethereum_address. Qed.
+
+(* ... and is REFUTED without that hypothesis (known finding
+   C16:limit-exceeded-by-case-variants, replayed on the real contracts): the unrestricted
+   statement
+     forall ... cs w d, a_counts (w_air w) = [] -> addr_successes ... d w cs <= a_limit (w_air w)
+   is false — with the list ["0xaaaa…"; "0xAAAA…"], limit 1 and a hex decoder that ignores
+   letter case the address claims twice. *)
+Theorem C16_limit_per_ethereum_address_refuted :
+  exists hexdec keccak recover address_of verify w cs d,
+    a_counts (w_air w) = [] /\ a_limit (w_air w) = 1 /\
+    addr_successes hexdec keccak recover address_of verify d w cs = 2.
+Proof. exact limit_per_ethereum_address_refuted. Qed.
+
 (* total paid: the contract's balance drops by exactly amount x (number of successful claims) *)
 Theorem C16_total_paid :
   forall hexdec keccak recover address_of verify cs w,
@@ -260,6 +284,8 @@ Print Assumptions C16_failed_claim_changes_nothing.
 Print Assumptions C16_counter_counts_successes.
 Print Assumptions C16_limit_respected.
 Print Assumptions C16_limit_respected_from_instantiate.
+Print Assumptions C16_limit_per_ethereum_address.
+Print Assumptions C16_limit_per_ethereum_address_refuted.
 Print Assumptions C16_total_paid.
 Print Assumptions C16_plaintext_injective.
 Print Assumptions C16_claim_binds_wallet.
